@@ -21,7 +21,14 @@ def gen_module(rng, size: int = 3, classes: bool = True) -> str:
         if c < 0.5:
             return f"({expr(d + 1)} {rng.choice(['+', '-', '*', '/', '//', '%', '**', '&', '|', '^', '<<', '>>'])} {expr(d + 1)})"
         if c < 0.6:
-            return f"({rng.choice(['-', '+', '~', 'not '])}{expr(d + 1)})"
+            op1 = rng.choice(['-', '+', '~', 'not '])
+            if rng.random() < 0.35:      # the same unary operator nested in itself, separated by another node
+                return f"({op1}({expr(d + 1)} {rng.choice(['+', '*', 'and', '|'])} ({op1}{var()})))"
+            return f"({op1}{expr(d + 1)})"
+        if c < 0.64:
+            return f"len(name[xs[{rng.choice(['1:2', ':2', '0:3:1'])}][0]:{rng.choice(['5', '4:2', ''])}])"
+        if c < 0.67:
+            return f"len({{**opts, 'k': {expr(d + 1)}, {nums()}: {expr(d + 1)}, **opts}})"
         if c < 0.7:
             return f"len({rng.choice(['xs', 'name'])}[{rng.choice(['1:', ':2', '1:3', '::2', '0:4:2'])}])"
         if c < 0.8:
@@ -37,6 +44,8 @@ def gen_module(rng, size: int = 3, classes: bool = True) -> str:
                 "xs" if c < 0.12 else expr(d + 1))
         if c < 0.8:
             return f"({cond(d + 1)} {rng.choice(['and', 'or'])} {cond(d + 1)})"
+        if c < 0.9:
+            return f"not ({cond(d + 1)} {rng.choice(['and', 'or'])} not ({cond(d + 1)}))"
         return f"not ({cond(d + 1)})"
 
     def block(ind, d=0, in_loop=False):
@@ -85,7 +94,8 @@ def gen_module(rng, size: int = 3, classes: bool = True) -> str:
     for k in range(size):
         if rng.random() < 0.4:
             out.append(rng.choice(["@functools.lru_cache", "@functools.wraps(len)", "@staticmethod"]) if False else "@functools.wraps(len)")
-        out.append(f"def f{k}(a, b=1, c=2, xs=(1, 2, 3), name='abc'):")
+        kwonly = rng.choice(["", ", *, key, reverse=False, limit=10", ", *, strict, pad=0", ", *, lo=1, hi, step=2"])
+        out.append(f"def f{k}(a, b=1, c=2, xs=(1, 2, 3), name='abc', opts={{}}{kwonly}):")
         out += block(4)
         out.append(f"    return {expr()}")
         out.append("")
@@ -133,6 +143,10 @@ class Abstraction:
                     if isinstance(v, ast.AST):
                         kids.append(self.tree(v, paths, path + (len(kids),)))
                         n += 1
+                    elif v is None:
+                        # a None placeholder (arguments.kw_defaults, Dict.keys) occupies a real list slot
+                        kids.append((self.label(("<placeholder>",)), []))
+                        n += 1
                     else:
                         shape.append((name, "s", repr(v)))
                 shape.append((name, "L", n))
@@ -163,6 +177,15 @@ def subtree(t, path):
     for i in path:
         t = t[1][i]
     return t
+
+
+def write(t, path, r):
+    """t with the subtree at path replaced by r (fresh spine, shared siblings)."""
+    if not path:
+        return r
+    kids = list(t[1])
+    kids[path[0]] = write(kids[path[0]], path[1:], r)
+    return (t[0], kids)
 
 
 def freeze(t):
